@@ -74,6 +74,8 @@ def make_settings(cfg):
                   smoothing=dict(operator=cfg["op"], bandwidth=cfg["b"],
                                  center_frequencies_in_hz=np.array(cfg["fcs"], copy=True)),
                   fft_settings=None if cfg["user_n"] is None else dict(n=int(cfg["user_n"])))
+    if cfg.get("fft_n_none"):
+        common["fft_settings"] = dict(n=None)
     if cfg.get("policy"):
         common["handle_dissimilar_time_steps_by"] = cfg["policy"]
     k = cfg["kind"]
@@ -313,12 +315,20 @@ def fam_reference_mixed_dt(ctx, rng):
     if rng.random() < 0.5:
         dts = dts + [dts[0]]
     L = [int(rng.choice([300, 1000, 2048, 5000])) for _ in dts]
+    variant = str(rng.choice(["pinned-n", "pinned-n", "default-n-long-record-later", "n-none"]))
+    if variant == "default-n-long-record-later":
+        L[0] = 300
+        L[-1] = int(rng.choice([33000, 40000]))          # longer than nextpow2(first) = 32768
+    elif variant == "n-none":
+        L = sorted(L)                                      # shortest first
+        L[-1] = L[0] + int(rng.integers(50, 900))
     kind = str(rng.choice(["freq", "freq", "single", "rotdpp", "azimuthal"]))
     cfg = gen_cfg(rng, max(dts), max(L), kind)
-    cfg["user_n"] = int(rng.choice([2 ** 15, 2 ** 16]))
+    cfg["user_n"] = int(rng.choice([2 ** 15, 2 ** 16])) if variant == "pinned-n" else None
+    cfg["fft_n_none"] = variant == "n-none"
     cfg["fcs"] = cfg["fcs"] * min(1.0, 0.9 * (0.5 / max(dts)) / cfg["fcs"].max())
     windows = [gen.recording_arrays(rng, n, None, 1.0) for n in L]
-    ctx.describe(dts=dts, lengths=L, **cfg_info(cfg))
+    ctx.describe(dts=dts, lengths=L, variant=variant, **cfg_info(cfg))
     recs = [gen.make_recording(w[0], w[1], w[2], dt) for w, dt in zip(windows, dts)]
     st = make_settings(cfg)
     ctx.count("process_calls")
@@ -329,6 +339,9 @@ def fam_reference_mixed_dt(ctx, rng):
         ctx.count("mixed_dt_case_refused")
         return
     n = st.fft_settings["n"]
+    ctx.check(isinstance(n, (int, np.integer)) and n >= max(L), "fft-length-covers-window",
+              f"fft n={n} although the longest window of the list has {max(L)} samples (it would be cropped, not zero-padded)",
+              n=n, lengths=L, variant=variant)
     azs = list(cfg["azimuths"]) if kind == "azimuthal" else [None]
     curves = [np.asarray(h.amplitude) for h in res.hvsrs] if kind == "azimuthal" else [np.atleast_2d(np.asarray(res.amplitude))]
     for ai, az in enumerate(azs):
